@@ -455,6 +455,21 @@ class Inliner(object):
                 setattr(st, field, [T().visit(v) if isinstance(v, ast.AST) else v for v in val])
         return st
 
+    def unroll_literal_loops(self, stmts):
+        """for x in (c1, c2, ...): BODY   with literal constants  ->  BODY[x := c1]; BODY[x := c2]; ...   (top-level statements of a generator helper)"""
+        out = []
+        for s_ in stmts:
+            if isinstance(s_, ast.For) and isinstance(s_.target, ast.Name) and isinstance(s_.iter, (ast.Tuple, ast.List)) and s_.iter.elts and not s_.orelse \
+                    and all(isinstance(e, ast.Constant) for e in s_.iter.elts) and len(s_.iter.elts) <= 8 \
+                    and not any(isinstance(n, (ast.Break, ast.Continue)) for b in s_.body for n in ast.walk(b)) \
+                    and not any(isinstance(n, ast.Name) and n.id == s_.target.id and isinstance(n.ctx, ast.Store) for b in s_.body for n in ast.walk(b)):
+                for e in s_.iter.elts:
+                    for b in s_.body:
+                        out.append(_Subst({}, {s_.target.id: e}).visit(copy.deepcopy(b)))
+            else:
+                out.append(s_)
+        return out
+
     def gen_loop(self, st, in_class):
         """for v in g(..): BODY   with  def g(..): [if c:] yield e ...   ->   [if c:] v = e; BODY   per yield, in order"""
         h, recv = self.callee(st.iter, in_class)
@@ -462,13 +477,14 @@ class Inliner(object):
             return None
         if any(isinstance(n, (ast.Break, ast.Continue, ast.Return)) for s in st.body for n in ast.walk(s)):
             return None
-        if any(isinstance(n, (ast.For, ast.While, ast.Return, ast.Try, ast.With)) for s in h.body for n in ast.walk(s)):
+        hbody = self.unroll_literal_loops(h.body)
+        if hbody is None or any(isinstance(n, (ast.For, ast.While, ast.Return, ast.Try, ast.With)) for s in hbody for n in ast.walk(s)):
             return None
         b = self.bind(h, st.iter, recv)
         if b is None:
             return None
         pre, rename, subst = b
-        body = [_Subst(rename, subst).visit(copy.deepcopy(s)) for s in h.body]
+        body = [_Subst(rename, subst).visit(copy.deepcopy(s)) for s in hbody]
 
         def conv(stmts):
             out = []
